@@ -244,6 +244,8 @@ class Sim:
             return "<str>"
         if isinstance(e, ast.Tuple):
             return tuple(self.ev(x) for x in e.elts)
+        if isinstance(e, ast.List):
+            return [self.ev(x) for x in e.elts]
         raise Unsupported(type(e).__name__)
 
     # ------------------------------------------------------------- statements
